@@ -342,6 +342,10 @@ fn flate_lzw_filter(
             };
         let rows = decoded.len() / row_length;
 
+        if decoded.is_empty() {
+            // No rows (as for the TIFF predictor).
+            return Ok(ParseBuffer::new(decoded))
+        }
         if row_length > decoded.len() {
             let err = ErrorKind::TransformError(
                 "PNG filter: decoded size too small for specified columns".to_string(),
